@@ -66,7 +66,7 @@ def build(config="default", repo=None, verbose=False):
     os.makedirs(out)
     # persistent target dir for dependencies; members' fingerprints are removed so
     # the wrapper is really invoked on them (cargo would otherwise replay).
-    tdir = os.path.join(CACHE, "target-" + config)
+    tdir = os.path.join(CACHE, "target-" + config + os.environ.get("VERIF_TARGET_TAG", ""))
     fp = os.path.join(tdir, "debug", ".fingerprint")
     if os.path.isdir(fp):
         for d in os.listdir(fp):
